@@ -58,6 +58,7 @@ int main(int argc, char** argv) {
 
   auto runOne = [&](const json& sc, long x, long k, const std::function<vrt::RunResult(vrt::Ctl&)>& drive) {
     vrt::ev("{\"e\":\"Reset\",\"x\":%ld,\"k\":%ld,\"scn\":%d}", x, k, sc["id"].get<int>());
+    vrt::log_flush();
     std::fprintf(stderr, "@@X %ld\n", x);
     heapacct::n = 0; heapacct::overflow = 0; heapacct::on = true;
     size_t live = 0, bad = 0; int root = 0; std::string sched;
